@@ -282,6 +282,43 @@ def gen_nonrecursive(r, n_idb=None, min_idb=1, plain_names=False):
   return {'preds': preds, 'ground': [], 'recursive': {}, 'attach': None, 'noise': []}
 
 
+def gen_withchain(r):
+  """A grounded base table read through nested helper predicates (compiled as WITH tables) by
+  several grounded readers, in drawn orders: Base <- Known <- Big; readers of Known, of both,
+  of Big only; a top predicate over the readers."""
+  n = r.randint(4, 7)
+  vals = r.sample(range(0, 9), n)
+  preds = [{'name': 'E0', 'arity': 1, 'kind': 'edb', 'rows': [[v] for v in vals] + ([[vals[0]]] if r.random() < 0.4 else []), 'rules': []}]
+  hk = r.choice(['distinct', 'distinct', 'agg'])
+  def helper(name, src, bound):
+    if hk == 'agg':
+      return {'name': name, 'arity': 1, 'kind': 'agg', 'op': '+=', 'rules': [
+          rule([V('x')], [[src, [V('x')] if src in ('Base', 'E0') else [V('x')], 'm9' if False else None]] if src in ('Base', 'E0') else [[src, [V('x')], 'm9']],
+               [['x', '>', C(bound)]], aggval=C(1))]}
+    return {'name': name, 'arity': 1, 'kind': 'distinct', 'rules': [
+        rule([V('x')], [[src, [V('x')], None]], [['x', '>', C(bound)]])]}
+  preds.append({'name': 'Base', 'arity': 1, 'kind': 'bag', 'rules': [rule([V('x')], [['E0', [V('x')], None]])]})
+  preds.append(helper('Known', 'Base', r.choice([0, 1])))
+  preds.append(helper('Big', 'Known', r.choice([1, 2, 3])))
+  val = 'v9' if hk == 'agg' else None
+  def atom(h):
+    return [h, [V('x')], val and (val + h.lower())]
+  readers = []
+  shapes = [('Agg0', ['Known']), ('Agg1', ['Known', 'Big']), ('Agg2', ['Big']), ('Agg3', ['Big', 'Known']), ('Agg4', ['Known'])]
+  chosen = [shapes[0], shapes[1], shapes[2]] if r.random() < 0.5 else r.sample(shapes, r.choice([2, 3, 4]))
+  if r.random() < 0.5:
+    r.shuffle(chosen)
+  for name, hs in chosen:
+    preds.append({'name': name, 'arity': 1, 'kind': 'bag', 'rules': [rule([V('x')], [atom(h) for h in hs])]})
+    readers.append(name)
+  top_atoms = [[n_, [V('x')], None] for n_ in readers]
+  if r.random() < 0.5:
+    r.shuffle(top_atoms)
+  preds.append({'name': 'Test', 'arity': 1, 'kind': r.choice(['bag', 'distinct']), 'rules': [rule([V('x')], top_atoms)]})
+  ground = ['Base'] + [n_ for n_ in readers if r.random() < 0.85]
+  return {'preds': preds, 'ground': sorted(set(ground)), 'recursive': {}, 'attach': None, 'noise': []}
+
+
 def idb_names(program):
   return ([p['name'] for p in program['preds'] if p['kind'] != 'edb'] +
           [f['name'] for f in program.get('functors') or []])
